@@ -19,6 +19,9 @@ from common import storage_of
 logging.getLogger('labtech').setLevel(logging.CRITICAL)
 
 EXPECT = {'serial': 'InCaller', 'fork': 'ForkedChild', 'spawn': 'SpawnedChild'}
+# no backend named: fork where the platform supports forked Python subprocesses, else spawn (what the documentation promises)
+import multiprocessing as _mp
+EXPECT['default'] = 'ForkedChild' if 'fork' in _mp.get_all_start_methods() else 'SpawnedChild'
 
 
 def classify(rec, caller_pid, caller_thread):
@@ -54,7 +57,7 @@ def run_config(cfg):
         if cfg.get('fill_later'):
             # the caller hands over an (empty) dict and fills it before the first run_tasks call: it is the Lab's context
             given = {}
-        lab = Lab(storage=os.path.join(d, 'store'), runner_backend=cfg['backend'], max_workers=cfg['max_workers'],
+        lab = Lab(storage=os.path.join(d, 'store'), runner_backend=(None if cfg['backend'] == 'default' else cfg['backend']), max_workers=cfg['max_workers'],
                   context=given, notebook=False)
         if cfg.get('fill_later'):
             given.update(ctx)
@@ -77,7 +80,7 @@ def run_config(cfg):
                 lab.context.clear()              # the Lab's context object is changed in place
                 lab.context.update(ctx)
             else:
-                lab = Lab(storage=os.path.join(d, 'store'), runner_backend=cfg['backend'], max_workers=cfg['max_workers'],
+                lab = Lab(storage=os.path.join(d, 'store'), runner_backend=(None if cfg['backend'] == 'default' else cfg['backend']), max_workers=cfg['max_workers'],
                           context=dict(ctx), notebook=False)
             res = lab.run_tasks(tasks, bust_cache=True, disable_progress=True, disable_top=True)
         recs = []
@@ -141,6 +144,7 @@ def run(prop, report, tier, seed, replay=None):
             cfgs.append(dict(backend=b, max_workers=2, filter='none', n=2, context={'a': 1, 'k0': 'x'}, helper_thread=False, rerun=False))
         for b in ('serial', 'fork'):
             cfgs.append(dict(backend=b, max_workers=2, filter=False, n=2, context={'a': 1}, lock_in_context=True, helper_thread=False, rerun=False))
+        cfgs.append(dict(backend='default', max_workers=2, filter=True, n=2, context={'a': 1, 'k0': 'x', 'k1': [1]}, helper_thread=False, rerun=False))
         for b in ('serial', 'fork'):
             cfgs.append(dict(backend=b, max_workers=2, filter=False, n=2, context={'a': 1, 'k0': 'x'}, fill_later=True, helper_thread=False, rerun=False))
             cfgs.append(dict(backend=b, max_workers=2, filter=True, n=2, context={'a': 1, 'k0': 'x', 'k1': [1]}, fill_later=True, helper_thread=False, rerun=False))
